@@ -217,7 +217,7 @@ class Scenario:
 
 
 class ProfC14:
-    n_threads = [1]
+    n_threads = [1, 1, 0]
     max_execs = [0, 0, 2]
     min_jobs, max_jobs = 1, 4
     callers = [2, 2, 3, 4]
